@@ -51,11 +51,16 @@ func (ls *lscope) lookup(n string) *lsym {
 }
 
 type drvRange struct {
-	whole  bool
-	lo, hi int
+	whole   bool
+	lo, hi  int
+	hasWord bool // array element with a constant (after genvar substitution) word index
+	word    int
 }
 
 func (a drvRange) overlaps(b drvRange) bool {
+	if a.hasWord && b.hasWord && a.word != b.word {
+		return false
+	}
 	if a.whole || b.whole {
 		return true
 	}
@@ -604,14 +609,14 @@ func (l *linter) target(ls *lscope, x Expr) (name string, pos Pos, r drvRange, o
 			// mem[i][b]
 			if in, ok2 := v.X.(*Index); ok2 {
 				if id2, ok3 := in.X.(*Ident); ok3 {
-					return id2.Name, id2.Pos, drvRange{whole: true}, true
+					return id2.Name, id2.Pos, l.wordRange(ls, in.I), true
 				}
 			}
 			return "", Pos{}, drvRange{}, false
 		}
 		s := ls.lookup(id.Name)
 		if s != nil && s.isArray {
-			return id.Name, id.Pos, drvRange{whole: true}, true
+			return id.Name, id.Pos, l.wordRange(ls, v.I), true
 		}
 		if i, okc := l.constInt(ls, v.I); okc {
 			return id.Name, id.Pos, drvRange{lo: i, hi: i}, true
@@ -622,7 +627,7 @@ func (l *linter) target(ls *lscope, x Expr) (name string, pos Pos, r drvRange, o
 		if !isID {
 			if in, ok2 := v.X.(*Index); ok2 {
 				if id2, ok3 := in.X.(*Ident); ok3 {
-					return id2.Name, id2.Pos, drvRange{whole: true}, true
+					return id2.Name, id2.Pos, l.wordRange(ls, in.I), true
 				}
 			}
 			return "", Pos{}, drvRange{}, false
@@ -653,6 +658,15 @@ func (l *linter) target(ls *lscope, x Expr) (name string, pos Pos, r drvRange, o
 		return id.Name, id.Pos, drvRange{whole: true}, true
 	}
 	return "", Pos{}, drvRange{}, false
+}
+
+// wordRange is the driven range of an array element write: all bits of one word when the word index is a
+// constant (after genvar substitution), the whole array otherwise.
+func (l *linter) wordRange(ls *lscope, idx Expr) drvRange {
+	if w, ok := l.constInt(ls, idx); ok {
+		return drvRange{whole: true, hasWord: true, word: w}
+	}
+	return drvRange{whole: true}
 }
 
 func (l *linter) eachTarget(x Expr, f func(Expr)) {
